@@ -9,6 +9,18 @@ from typing import Any, Callable, Final, Iterator, Union, Tuple
 _MISSING: Final[object] = object()
 
 
+def _own_attr(target: Any, attr: str) -> Any:
+    """The attribute as stored on ``target`` itself (no MRO/metaclass lookup, no descriptor
+    protocol), or ``_MISSING``. This is what has to be put back on exit: writing back the
+    value ``getattr`` resolved would turn an inherited attribute into an own one (and, when
+    the provider is patched at that moment, leak the patched value)."""
+    try:
+        namespace = vars(target)
+    except TypeError:  # no __dict__ (e.g. slotted instances): fall back to getattr
+        return getattr(target, attr, _MISSING)
+    return namespace[attr] if attr in namespace else _MISSING
+
+
 def _resolve(target: Union[str, Any]) -> Any:
     if not isinstance(target, str):
         return target
@@ -44,21 +56,22 @@ def apply_patches(specs: list[PatchSpec]) -> Iterator[None]:
         for s in specs:
             tgt = _resolve(s.target)
             orig = getattr(tgt, s.attr, _MISSING)
+            own = _own_attr(tgt, s.attr)
             if isinstance(s, AssignSpec):
                 setattr(tgt, s.attr, s.value)
             else:  # MonkeyPatchSpec
                 new_val = s.make_value(None if orig is _MISSING else orig)
                 setattr(tgt, s.attr, new_val)
-            applied.append((tgt, s.attr, orig))
+            applied.append((tgt, s.attr, own))
         yield
     finally:
         # unwind in reverse order
-        for tgt, attr, orig in reversed(applied):
-            if orig is _MISSING:
+        for tgt, attr, own in reversed(applied):
+            if own is _MISSING:
                 try:
                     delattr(tgt, attr)
                 except Exception:
                     # if delete_if_missing False, leave as-is
                     pass
             else:
-                setattr(tgt, attr, orig)
+                setattr(tgt, attr, own)
